@@ -237,6 +237,9 @@ def isimip_trend_oracle(rng, n_cases, res, problems):
         dO = probes.dates_from(datetime.date(y0, 1, 1), 365 * rng.randint(2, 5) + rng.randint(0, 30))
         dH = probes.dates_from(datetime.date(y0, 1, 1), 365 * rng.randint(2, 5) + rng.randint(0, 30))
         dF = probes.dates_from(datetime.date(y0 + 30, 1, 1), 365 * ny + ny // 4 + rng.choice([0, 0, rng.randint(0, 20)]))
+        if k % 4 == 1:  # the three periods of equal length (a step-7 mix-up of the series is then not a shape error)
+            dO = probes.dates_from(datetime.date(y0, 1, 1), dF.size)
+            dH = probes.dates_from(datetime.date(y0, 1, 1), dF.size)
         o, h, f = probes.tas_like(nprs, dO, 283, 3), probes.tas_like(nprs, dH, 285, 4), probes.tas_like(nprs, dF, 288, 4)
         kind = rng.choice(["trend", "trend", "trend", "stationary"])
         rate = rng.choice([-1, 1]) * rng.choice([0.5, 2.0, 6.0])
